@@ -9,7 +9,7 @@ global size_of usize == 8;
 //@extract sudachi/src/analysis/mod.rs :: enum Mode
 //@  derive Clone, Copy, PartialEq, Eq, Structural
 //@end
-pub struct DicCompilationCtx { _p: () }
+#[verifier::external_body] pub struct DicCompilationCtx { _p: () }
 impl DicCompilationCtx {
     #[verifier::external_body] fn default() -> DicCompilationCtx { unimplemented!() }
     #[verifier::external_body] fn set_filename(&mut self, new_name: String) -> String { unimplemented!() }
@@ -21,7 +21,7 @@ impl DicCompilationCtx {
 }
 #[verifier::external_body] fn err_string() -> String { String::new() }   // R12: message texts are not verified
 fn vpanic() requires false { }
-pub struct PosTable { _p: () }   // R14: IndexMap<StrPosEntry, u16>, not used here
+#[verifier::external_body] pub struct PosTable { _p: () }   // R14: IndexMap<StrPosEntry, u16>, not used here
 
 //@extract sudachi/src/dic/build/lexicon.rs :: enum SplitUnit
 //@  derive
